@@ -2,7 +2,7 @@ from typing import TypeVar, Union
 
 from typing_extensions import Unpack
 
-from basilisp.lang.interfaces import ILispObject, ILookup
+from basilisp.lang.interfaces import ILispObject, ILookup, _elem_equals
 from basilisp.lang.keyword import keyword
 from basilisp.lang.obj import PrintSettings, lrepr
 from basilisp.lang.symbol import Symbol
@@ -41,7 +41,7 @@ class TaggedLiteral(ILispObject, ILookup[K, T]):
             return True
         if not isinstance(other, TaggedLiteral):
             return NotImplemented
-        return self._tag == other._tag and self._form == other._form
+        return self._tag == other._tag and _elem_equals(self._form, other._form)
 
     def __hash__(self):
         if self._hash is None:
